@@ -385,11 +385,21 @@ def main():
         rp = json.load(open(replay))
         hbin, err = build_harness()
         run(['lake', 'build', 'wpmodel'], cwd=LEAN)
+        still = False
         for op in rp.get('ops', []):
             g = run_lines(hbin, ['0 ' + op], 1).get('0', 'crash') if hbin else 'harness-build-failed'
             m = run_lines(model_bin(), ['0 ' + op], 1).get('0', 'crash')
-            print(f'op: {op[:300]}\n  go:    {g[:300]}\n  model: {m[:300]}\n  agree: {gen.agree(op, g, m)}')
-        sys.exit(0)
+            if g == 'bad-op' and m == 'bad-op':
+                # a derived record (a comparison the generator makes between several ops / tool runs), not a single op of the line protocol
+                print(f'record: {op[:300]}\n  recorded: real code [{str(rp.get("go"))[:200]}] expected [{str(rp.get("model"))[:200]}]\n'
+                      f'  re-run it with: VERIF_SEED={rp.get("seed")} ./check.py {pid} --tier {rp.get("tier", "quick")}')
+                continue
+            ok = gen.agree(op, g, m)
+            still = still or not ok
+            print(f'op: {op[:300]}\n  go:    {g[:300]}\n  model: {m[:300]}\n  agree: {ok}')
+        if not rp.get('ops'):
+            print('no op recorded (broken proof obligation / tie): ' + str(rp.get('broken'))[:600])
+        sys.exit(1 if still else 0)
 
     # 1. theorems
     lean = lean_check(pid, tier)
